@@ -16,6 +16,7 @@ import tempfile
 
 PROPERTY = "C14"
 LEVEL = "exploration"
+WATCHDOG_S = {"quick": 3000, "thorough": 14400}
 DATES = ["2015-01-01", "2017-03-01", "2019-07-01", "2021-01-01", "2022-10-01", "2023-07-01", "2024-01-01", "2005-01-01", "2005-07-01", "2010-01-01", "1998-01-01", "2002-07-01"]
 TARGET_SETS = ["default", ["eink_st_y_sn", "soli_st_y_sn"], ["kindergeld_m", "kinderzuschl_m_bg", "wohngeld_m_wthh"],
                ["ges_rente_m", "sozialv_beitr_arbeitnehmer_m"], ["arbeitsl_geld_2_m_bg", "bg_id", "fg_id"],
@@ -170,7 +171,7 @@ def _rule_purity(item):
     return res
 
 
-def _run_fresh(history, timeout=600):
+def _run_fresh(history, timeout=2400):  # generous wall-clock watchdog (loaded machines); its firing is inconclusive, never a verdict
     from vf.core import PY, REPO, ROOT
 
     with tempfile.TemporaryDirectory() as td:
